@@ -195,9 +195,9 @@ static void fiber_event_wake_waiters(fiber_manager_t* manager,
   }
 }
 
-static void fiber_event_wake_sleepers(fiber_manager_t* manager,
-                                      uint64_t trigger_count) {
-  fiber_spinlock_lock(&sleep_spinlock);
+// must be called with sleep_spinlock held
+static void fiber_event_wake_sleepers_locked(fiber_manager_t* manager,
+                                             uint64_t trigger_count) {
   timer_trigger_count += trigger_count;
 
   waiter_el_t* to_wake = NULL;
@@ -213,9 +213,16 @@ static void fiber_event_wake_sleepers(fiber_manager_t* manager,
       to_wake = next;
     } while (to_wake);
   }
+}
 
+#if !defined(__linux__)
+static void fiber_event_wake_sleepers(fiber_manager_t* manager,
+                                      uint64_t trigger_count) {
+  fiber_spinlock_lock(&sleep_spinlock);
+  fiber_event_wake_sleepers_locked(manager, trigger_count);
   fiber_spinlock_unlock(&sleep_spinlock);
 }
+#endif
 
 static int fiber_poll_events_internal(uint32_t seconds, uint32_t useconds) {
 #if defined(__linux__)
@@ -239,14 +246,19 @@ static int fiber_poll_events_internal(uint32_t seconds, uint32_t useconds) {
   for (i = 0; i < count; ++i) {
     const int the_fd = events[i].data.fd;
     if (the_fd == timer_fd) {
+      // read the expirations while holding the sleep lock: ticks that have been
+      // read but not yet added to timer_trigger_count must not be visible to a
+      // fiber that computes its deadline in between (it would wake early)
+      fiber_spinlock_lock(&sleep_spinlock);
       uint64_t timer_count = 0;
       const int ret =
           fibershim_read(timer_fd, &timer_count, sizeof(timer_count));
-      if (ret != sizeof(timer_count)) {
+      if (ret == sizeof(timer_count)) {
+        fiber_event_wake_sleepers_locked(manager, timer_count);
+      } else {
         assert(errno == EWOULDBLOCK || errno == EAGAIN);
-        continue;
       }
-      fiber_event_wake_sleepers(manager, timer_count);
+      fiber_spinlock_unlock(&sleep_spinlock);
     } else {
       fd_wait_info_t* const info = &wait_info[the_fd];
       fiber_spinlock_lock(&info->spinlock);
